@@ -236,7 +236,7 @@ def main(tier, replay=None, prop='C03'):
                 rep.violations.append(rep.save_replay(role, {'property': prop, 'scenario': sc, 'observed': got, 'expected': exp}))
             elif not bad: rep.inconclusive.append('kani harness %s failed (%s) but the native order check passes' % (hname, why))
     # translator validation: two fixed scenarios through the real binary
-    for sc in (SELFTEST_SCENARIOS if prop == 'C03' else SELFTEST_SCENARIOS[:2]):
+    for sc in (SELFTEST_SCENARIOS if prop == 'C03' else (RUNNER_SELFTEST if prop == 'C17' else SELFTEST_SCENARIOS[:2])):
         bad, got, exp = confirm(sc); rep.validated += 1
         if bad: rep.inconclusive.append('fixed scenario %s: real binary %s, oracle %s' % (sc, got, exp))
     ts = [t for t in tasks(tier, prop)]
@@ -268,6 +268,12 @@ def main(tier, replay=None, prop='C03'):
     if rep.nonrepro and not rep.violations:
         rep.inconclusive.append('%d solver models did not reproduce with the real binary, e.g. %s' % (len(rep.nonrepro), json.dumps(rep.nonrepro[0], default=str)[:500]))
     pr = prog()
+    if prop == 'C17':
+        rep.bounds = {'definitions': '%d definitions (templates, functions), every storage/analysis order, each in a user or an included file, 0-2 CFG-stage reports, lift succeeding or failing, each pass looking up any one definition or none' % (2 if tier == 'quick' else 3)}
+        rep.stubs = ['generate_cfg (emits r fresh reports, then Ok or Err with one more)', 'get_analysis_passes (one pass: one fresh report + one symbolic look-up through AnalysisContext)', 'writer (records)', 'TemplateData/FunctionData::get_file_id', 'FileLibrary::is_user_input']
+        rep.assumptions = ['HashMap<String,_> modelled as an association list whose iteration order is the harness-chosen permutation', 'source hash ' + pr.hashes['analysis']]
+        rep.outside = ['hash-map iteration orders inside the analysis passes', 'SSA naming across runs', 'file order on the command line', 'unrelated extra definitions beyond the bound']
+        return rep.finish()
     rep.bounds = {'reports': '<= %d reports offered to the writer in three batches (parser, functions, templates), each with symbolic level, 0-2 primary labels over %d files, id from %s' % (2 if tier == 'quick' else 3, NFILES, sorted(IDS.values())),
                   'options': 'every --level, every set of user-supplied files, --allow lists %s, SARIF on/off, verbose on/off, SARIF serialisation succeeding or failing' % ALLOW_LISTS}
     rep.stubs = ['Cli::parse (arbitrary options)', 'AnalysisRunner::{new,with_libraries,with_files,analyze_functions,analyze_templates,file_library} (offer arbitrary reports through the real ReportWriter impl)',
@@ -315,6 +321,13 @@ SELFTEST_SCENARIOS = [
     {'kind': 'main', 'level': 'Info', 'user': [0], 'allow': [], 'sarif': False, 'verbose': False, 'reports': [{'category': 'Error', 'code': 'ParseFail', 'files': []}]},
     {'kind': 'main', 'level': 'Warning', 'user': [0], 'allow': ['CS0005'], 'sarif': True, 'verbose': False, 'reports': [{'category': 'Warning', 'code': 'SignalAssignmentStatement', 'files': [0]}, {'category': 'Warning', 'code': 'ShadowingVariable', 'files': [0]}]},
     {'kind': 'order'},
+]
+
+
+RUNNER_SELFTEST = [
+    {'kind': 'runner', 'defkind': 'template', 'defs': [{'id': 0, 'user': True, 'fails': False, 'cfg_reports': 2, 'looks_up': 1}, {'id': 1, 'user': True, 'fails': True, 'cfg_reports': 1, 'looks_up': None}]},
+    {'kind': 'runner', 'defkind': 'template', 'defs': [{'id': 1, 'user': True, 'fails': True, 'cfg_reports': 1, 'looks_up': None}, {'id': 0, 'user': True, 'fails': False, 'cfg_reports': 2, 'looks_up': 1}]},
+    {'kind': 'runner', 'defkind': 'function', 'defs': [{'id': 0, 'user': True, 'fails': True, 'cfg_reports': 1, 'looks_up': None}, {'id': 1, 'user': False, 'fails': True, 'cfg_reports': 1, 'looks_up': None}]},
 ]
 
 
